@@ -114,6 +114,7 @@ def run_one(binary, scen, seed, outdir, extra_env=None):
     tr = os.path.join(outdir, f"{scen['name']}_{seed}.ndjson")
     env = dict(os.environ)
     env.update({"VRT_SEED": str(seed), "VRT_TRACE": tr})
+    env.setdefault("MALLOC_PERTURB_", "165")  # malloc'ed (not calloc'ed) memory is not zero: exposes missing initialisation
     if scen.get("kind", "fiber") == "fiber":
         env["VRT_SCEN"] = scen_text(scen)
     else:
@@ -238,7 +239,10 @@ def check_property(prop, tier, seed0):
     for sname in cfgp.get("mc", {}).get(tier, []):
         scen = load_scen(sname)
         gen_mc_for(scen, cfgp)
+        t1 = time.time()
         st, out = tlc_exhaustive(scen, timeout=cfgp.get("mc_timeout", {}).get(tier, 1500))
+        st["wall_s"] = round(time.time() - t1, 1)
+        log(f"[{prop}] exhaustive {sname}: {st.get('distinct')} distinct states, {st['wall_s']} s")
         ev["coverage"]["tlc_runs"].append({"scenario": sname, "mode": "exhaustive", **{k: v for k, v in st.items() if k != "error"}})
         if "generated" in st:
             ev["coverage"]["transitions"] += st["generated"]
@@ -278,7 +282,10 @@ def check_property(prop, tier, seed0):
         n = scen.get("seeds", {}).get(tier, nseeds)
         seeds = [seed0 * 100003 + i for i in range(1, n + 1)]
         tdir = os.path.join(outdir, "traces")
+        t1 = time.time()
         res = run_traces(binary, scen, seeds, tdir)
+        t_run = time.time() - t1
+        t1 = time.time()
         traces, meta = [], []
         nbad = 0
         for (tr, rc, err), seed in zip(res, seeds):
@@ -347,6 +354,9 @@ def check_property(prop, tier, seed0):
             if traces and len(ev["coverage"]["samples"]) < 3:
                 ev["coverage"]["samples"].append({"scenario": sname, "seed": meta[0][0], "events": len(traces[0]),
                                                   "first_events": [compact(e) for e in traces[0][2:14]]})
+        srec["run_s"] = round(t_run, 1)
+        srec["validate_s"] = round(time.time() - t1, 1)
+        log(f"[{prop}] scenario {sname}: {len(res)} executions in {srec['run_s']} s, validation {srec['validate_s']} s")
         ev["coverage"]["scenarios"].append(srec)
         shutil.rmtree(tdir + "_confirm", ignore_errors=True)
 
